@@ -125,6 +125,12 @@ func TestC01(t *testing.T) {
 				ev.Bulk(n, n)
 				ev.ClassN("alu8-grid", n)
 			}
+			// 16-bit ALU grid over a set of boundary values (both operands), carry and decimal
+			if rig.Shard() == 1%rig.Shards() {
+				n := c01Alu16Sweep(r)
+				ev.Bulk(n, n)
+				ev.ClassN("alu16-boundary-grid", n)
+			}
 			hit := 0
 			for _, n := range cells {
 				if n > 0 {
@@ -184,6 +190,57 @@ func c01AluSweep(r *rig.Run) int64 {
 						n++
 						if err := runLockstep(&c, nil, []rig.CPU{pri, alt}, nil); err != nil {
 							r.Violation("alu8", c, err)
+							return n
+						}
+					}
+				}
+			}
+		}
+	}
+	return n
+}
+
+// c01Alu16Sweep: the 16-bit forms (m=0 / x=0) of the immediate and accumulator-mode ALU instructions over the square of a
+// set of boundary values (carry chains between the bytes, sign and zero edges, BCD and non-BCD digits), carry in and,
+// for ADC/SBC, the decimal flag; one instruction per case, on both interpreters.
+func c01Alu16Sweep(r *rig.Run) int64 {
+	pri, alt := cpus()
+	vals := []uint16{0, 1, 2, 0x000F, 0x0010, 0x007F, 0x0080, 0x0081, 0x00FE, 0x00FF, 0x0100, 0x0101, 0x0199, 0x0999, 0x0A0A, 0x0FFF, 0x1000,
+		0x1234, 0x4999, 0x5000, 0x5555, 0x7F7F, 0x7FFE, 0x7FFF, 0x8000, 0x8001, 0x8080, 0x8181, 0x9898, 0x9998, 0x9999, 0x999A, 0xAAAA, 0xF000,
+		0xFEFF, 0xFF00, 0xFF01, 0xFF7F, 0xFF80, 0xFFFE, 0xFFFF, 0x0099, 0x9900, 0x00A0, 0xA000, 0x7F80, 0x807F, 0xEDCB}
+	type aluOp struct {
+		op      byte
+		operand bool
+		index   bool
+	}
+	ops := []aluOp{{0x69, true, false}, {0xE9, true, false}, {0x09, true, false}, {0x29, true, false}, {0x49, true, false}, {0xC9, true, false}, {0x89, true, false},
+		{0xE0, true, true}, {0xC0, true, true}, {0x0A, false, false}, {0x2A, false, false}, {0x4A, false, false}, {0x6A, false, false}, {0x1A, false, false}, {0x3A, false, false}}
+	var n int64
+	for _, o := range ops {
+		arith := o.op == 0x69 || o.op == 0xE9
+		for dflag := 0; dflag < 2; dflag++ {
+			if dflag == 1 && !arith {
+				continue
+			}
+			for _, a := range vals {
+				ds := vals
+				if !o.operand {
+					ds = vals[:1]
+				}
+				for _, d := range ds {
+					for carry := 0; carry < 2; carry++ {
+						p := byte(carry) // m = x = 0
+						if dflag == 1 {
+							p |= wdc.FD
+						}
+						st := wdc.Arch{A: a, X: a, Y: a ^ 0x0100, S: 0x01F0, PC: 0x8000, K: 0x12, DBR: 0x34, P: p}
+						if o.op == 0xC0 {
+							st.Y = a
+						}
+						c := progCase{Init: st, MemSeed: 9, Steps: 1, Patches: []rig.Patch{{Addr: 0x128000, Val: o.op}, {Addr: 0x128001, Val: byte(d)}, {Addr: 0x128002, Val: byte(d >> 8)}}}
+						n++
+						if err := runLockstep(&c, nil, []rig.CPU{pri, alt}, nil); err != nil {
+							r.Violation("alu16", c, err)
 							return n
 						}
 					}
